@@ -1,7 +1,7 @@
 (* C12 - Version and msize negotiation is honoured in both directions.
    Property theorems only (each closed by [exact] of a lemma proved elsewhere, followed by Print Assumptions). *)
 From Coq Require Import NArith ZArith List Bool.
-From V9 Require Shape.ShapeLib Shape.Params.
+From V9 Require Shape.ShapeLib Shape.PVersion.
 From V9 Require Import Lib.GoSem Lib.Bytes Gen.Consts Codec.Msg Srv.Seq Srv.SeqSpec Srv.SeqProofs Recv.Recv Recv.RecvProofs.
 Import ListNotations.
 Local Open Scope N_scope.
@@ -59,5 +59,5 @@ Proof. vm_compute. split; reflexivity. Qed.
 (* ---- structural parameters read off the CURRENT source (Gen/Shape.v): version compares the requested msize
    with the CONNECTION's (it can only shrink) and takes the dialect from the SERVER's capability ---- *)
 Theorem C12_source_version_negotiation : ShapeLib.version_negotiation = true.
-Proof. exact Params.version_negotiation_ok. Qed.
+Proof. exact PVersion.version_negotiation_ok. Qed.
 Print Assumptions C12_source_version_negotiation.
